@@ -45,16 +45,16 @@ class UserClass(Model):
                     d["_uc_kind"] = b._uc_kind
                     d["_uc_fields"] = list(b._uc_fields) + [f for f in d["_uc_fields"] if f[0] not in {x[0] for x in b._uc_fields}]
 
-    def mro(self):
+    def _uc_mro(self):
         out = [self]
         for b in self._uc_bases:
-            for c in b.mro():
+            for c in b._uc_mro():
                 if c not in out:
                     out.append(c)
         return out
 
-    def lookup(self, name):
-        for c in self.mro():
+    def _uc_lookup(self, name):
+        for c in self._uc_mro():
             if name in c._uc_ns:
                 return c._uc_ns[name]
         return _MISSING
@@ -62,7 +62,7 @@ class UserClass(Model):
     def __getattr__(self, name):
         if name.startswith("_uc_"):
             raise AttributeError(name)
-        v = self.lookup(name)
+        v = self._uc_lookup(name)
         if v is not _MISSING:
             if isinstance(v, _Method):
                 if v.kind == "static":
@@ -84,7 +84,7 @@ class UserClass(Model):
 
     def __call__(self, *args, **kwargs):
         inst = UserInstance(self)
-        if self._uc_kind in ("namedtuple", "dataclass") and (self._uc_kind == "namedtuple" or self.lookup("__init__") is _MISSING):
+        if self._uc_kind in ("namedtuple", "dataclass") and (self._uc_kind == "namedtuple" or self._uc_lookup("__init__") is _MISSING):
             names = [f[0] for f in self._uc_fields]
             if len(args) > len(names):
                 raise ModelRaise("TypeError", f"{self._uc_name}() takes {len(names)} positional arguments but {len(args)} were given")
@@ -112,14 +112,19 @@ class UserClass(Model):
             d = object.__getattribute__(inst, "__dict__")
             for nm in names:
                 d[nm] = vals[nm]
-            post = self.lookup("__post_init__")
+            post = self._uc_lookup("__post_init__")
             if self._uc_kind == "dataclass" and isinstance(post, _Method):
                 post.clo(inst)
             return inst
-        init = self.lookup("__init__")
+        init = self._uc_lookup("__init__")
         if isinstance(init, _Method):
             init.clo(inst, *args, **kwargs)
         elif args or kwargs:
+            from .minieval import USER_EXC_PARENT
+
+            if self._uc_name in USER_EXC_PARENT and not kwargs:
+                object.__getattribute__(inst, "__dict__")["args"] = tuple(args)  # BaseException.__init__ keeps its arguments
+                return inst
             raise ModelRaise("TypeError", f"{self._uc_name}() takes no arguments")
         return inst
 
@@ -134,7 +139,7 @@ class UserClass(Model):
 
 
 def is_instance_of(obj, cls):
-    return isinstance(obj, UserInstance) and cls in object.__getattribute__(obj, "__dict__")["_uc_class"].mro()
+    return isinstance(obj, UserInstance) and cls in object.__getattribute__(obj, "__dict__")["_uc_class"]._uc_mro()
 
 
 class UserInstance(Model):
@@ -153,7 +158,7 @@ class UserInstance(Model):
         if name.startswith("_uc_"):
             raise AttributeError(name)
         cls = d["_uc_class"]
-        v = cls.lookup(name)
+        v = cls._uc_lookup(name)
         if v is not _MISSING:
             if isinstance(v, _Method):
                 if v.kind == "static":
@@ -186,7 +191,7 @@ class UserInstance(Model):
         cls = d["_uc_class"]
         if cls._uc_kind == "namedtuple" or cls._uc_opts.get("frozen"):
             raise ModelRaise("AttributeError", f"can't set attribute '{name}'")
-        v = cls.lookup(name)
+        v = cls._uc_lookup(name)
         if isinstance(v, _Method) and v.kind == "property":
             raise ModelRaise("AttributeError", f"property '{name}' has no setter")
         d[name] = value
@@ -196,7 +201,7 @@ class UserInstance(Model):
         return tuple(d[f[0]] for f in d["_uc_class"]._uc_fields)
 
     def _uc_special(self, name):
-        v = object.__getattribute__(self, "__dict__")["_uc_class"].lookup(name)
+        v = object.__getattribute__(self, "__dict__")["_uc_class"]._uc_lookup(name)
         return v if isinstance(v, _Method) else None
 
     # -- dunder protocols ----------------------------------------------------
@@ -331,6 +336,8 @@ def build_class(cdef, interp):
         raise Unsupported(f"class keywords (metaclass ...) on {cdef.name}")
     bases = []
     kind = "plain"
+    if len(cdef.bases) == 1 and ast.unparse(cdef.bases[0]) in ("dict", "list", "set") and ast.unparse(cdef.bases[0]) not in interp.me.env:
+        return build_builtin_subclass(cdef, interp, {"dict": dict, "list": list, "set": set}[ast.unparse(cdef.bases[0])])
     for b in cdef.bases:
         bname = ast.unparse(b).split(".")[-1]
         if bname == "NamedTuple":
@@ -338,8 +345,20 @@ def build_class(cdef, interp):
             continue
         if bname in ("object", "Generic", "ABC", "Protocol"):
             continue
-        if bname in ("Exception", "ValueError", "RuntimeError", "TypeError", "KeyError", "Warning", "UserWarning"):
-            continue  # exception classes: only their name matters to the evaluator (raise <Name>(...))
+        if bname in ("Enum", "StrEnum", "IntEnum", "Flag"):
+            if bname == "Flag":
+                raise Unsupported("enum.Flag")
+            if not (kind.startswith("enum:") and bname == "Enum"):
+                kind = "enum:" + bname
+            continue
+        if bname == "str" and any(ast.unparse(x).split(".")[-1] == "Enum" for x in cdef.bases):
+            kind = "enum:StrEnum"
+            continue
+        from .minieval import USER_EXC_PARENT, _EXC_PARENTS
+
+        if bname in _EXC_PARENTS or bname in ("BaseException", "Warning", "UserWarning", "DeprecationWarning") or bname in USER_EXC_PARENT:
+            USER_EXC_PARENT[cdef.name] = bname  # an exception class: `except <base>` catches it, "raises <base>" is satisfied by it
+            continue
         try:
             bv = interp.me.ev(b)
         except Unsupported:
@@ -379,6 +398,21 @@ def build_class(cdef, interp):
                 raise Unsupported(f"decorator(s) {sorted(unknown)} on {cdef.name}.{st.name}")
             # methods resolve free names in the enclosing (module / function) scope, not in the class body
             clo = interp.make_closure(st)
+            if decs & {"lru_cache", "cache"} and not decs & {"staticmethod", "classmethod"}:
+                # functools.lru_cache on a method: results are remembered per (object, arguments)
+                def _cached(inner, mname):
+                    def call(self_, *a, **k):
+                        store = object.__getattribute__(self_, "__dict__").setdefault("_uc_method_cache", {})
+                        try:
+                            key = (mname, a, tuple(sorted(k.items())))
+                            hash(key)
+                        except TypeError:
+                            raise ModelRaise("TypeError", f"unhashable argument to the cached method {mname}")
+                        if key not in store:
+                            store[key] = inner(self_, *a, **k)
+                        return store[key]
+                    return call
+                clo = _cached(clo, st.name)
             mk = "static" if "staticmethod" in decs else "class" if "classmethod" in decs else "property" if ("property" in decs or "cached_property" in decs) else "plain"
             ns[st.name] = _Method(mk, clo)
             body_env[st.name] = clo
@@ -409,6 +443,175 @@ def build_class(cdef, interp):
             continue
         raise Unsupported(f"statement in class body of {cdef.name}: {ast.unparse(st)[:60]}")
     ns.pop("__slots__", None)
+    if kind.startswith("enum:"):
+        return build_enum(cdef.name, kind.split(":")[1], ns, bases)
     if "__getattr__" in ns or "__getattribute__" in ns or "__setattr__" in ns or "__init_subclass__" in ns or "__new__" in ns:
         raise Unsupported(f"attribute hooks / __new__ in class {cdef.name}")
     return UserClass(cdef.name, bases, ns, kind=kind, fields=fields, dc_opts=dc_opts)
+
+
+def build_builtin_subclass(cdef, interp, base):
+    """`class Aliases(dict): def __missing__(self, k): ...` - a container class over a builtin one: a real subclass of the builtin
+    whose methods are the evaluated ones (CPython's own container then calls __missing__ / the overridden protocol methods)."""
+    if cdef.decorator_list:
+        raise Unsupported(f"class decorator on {cdef.name}")
+    ns = {"__slots__": ()}
+    user = set()
+    for st in cdef.body:
+        if isinstance(st, (ast.Pass,)) or (isinstance(st, ast.Expr) and isinstance(st.value, ast.Constant)):
+            continue
+        if isinstance(st, ast.Assign) and len(st.targets) == 1 and isinstance(st.targets[0], ast.Name) and st.targets[0].id == "__slots__":
+            continue
+        if isinstance(st, ast.FunctionDef) and not st.decorator_list and st.name not in ("__new__", "__getattr__", "__getattribute__", "__setattr__", "__init_subclass__", "__init__"):
+            clo = interp.make_closure(st)
+            ns[st.name] = (lambda c: (lambda self, *a, **k: c(self, *a, **k)))(clo)
+            user.add(st.name)
+            continue
+        raise Unsupported(f"statement in the body of {cdef.name}({base.__name__}): {ast.unparse(st)[:60]}")
+    ns["_cg_user_methods"] = frozenset(user)
+    return type(cdef.name, (base,), ns)
+
+
+class EnumMember(UserInstance):
+    """A member of an Enum class defined by the evaluated code: `.name`, `.value`, identity semantics; members of a StrEnum /
+    (str, Enum) / IntEnum also compare and hash like their value."""
+
+    def __init__(self, cls, name, value, mix):
+        super().__init__(cls)
+        d = object.__getattribute__(self, "__dict__")
+        d["name"], d["value"], d["_uc_mix"] = name, value, mix
+
+    def __setattr__(self, k, v):
+        raise ModelRaise("AttributeError", "cannot reassign an enum member attribute")
+
+    def __eq__(self, other):
+        if isinstance(other, EnumMember):
+            return self is other
+        return self._uc_mix and other == self.value
+
+    def __ne__(self, other):
+        return not self.__eq__(other)
+
+    def __hash__(self):
+        return hash(self.value) if self._uc_mix else hash(("enum", self._uc_class._uc_name, self.name))
+
+    def __str__(self):
+        m = self._uc_special("__str__")
+        if m is not None:
+            return m.clo(self)
+        return str(self.value) if self._uc_mix == "str" else f"{self._uc_class._uc_name}.{self.name}"
+
+    def __repr__(self):
+        return f"<{self._uc_class._uc_name}.{self.name}: {self.value!r}>"
+
+    def __bool__(self):
+        return True
+
+    def __iter__(self):
+        if self._uc_mix == "str":
+            return iter(self.value)
+        raise TypeError("enum member is not iterable")
+
+    def __len__(self):
+        if self._uc_mix == "str":
+            return len(self.value)
+        raise TypeError("enum member has no len()")
+
+    def __contains__(self, x):
+        if self._uc_mix == "str":
+            return x in self.value
+        raise TypeError("enum member is not a container")
+
+    def __lt__(self, other):
+        if self._uc_mix:
+            return self.value < (other.value if isinstance(other, EnumMember) else other)
+        raise TypeError("'<' not supported between enum members")
+
+
+class EnumClass(UserClass):
+    def __call__(self, value):
+        for m in self._uc_members:
+            if m.value == value:
+                return m
+        raise ModelRaise("ValueError", f"{value!r} is not a valid {self._uc_name}")
+
+    def __iter__(self):
+        return iter(list(self._uc_members))
+
+    def __len__(self):
+        return len(self._uc_members)
+
+    def __contains__(self, x):
+        return any(m is x or (m._uc_mix and m.value == x) for m in self._uc_members)
+
+    def __getitem__(self, name):
+        for m in self._uc_members:
+            if m.name == name:
+                return m
+        al = object.__getattribute__(self, "__dict__").get("_uc_aliases", {})
+        try:
+            if name in al:
+                return al[name]
+        except TypeError:
+            pass
+        raise ModelRaise("KeyError", repr(name))
+
+    def __getattr__(self, name):
+        d = object.__getattribute__(self, "__dict__")
+        for m in d.get("_uc_members", ()):
+            if m.name == name:
+                return m
+        if name in d.get("_uc_aliases", {}):
+            return d["_uc_aliases"][name]
+        if name == "__members__":
+            return {**{m.name: m for m in d.get("_uc_members", ())}, **d.get("_uc_aliases", {})}
+        return UserClass.__getattr__(self, name)
+
+
+def build_enum(name, flavour, ns, bases):
+    methods = {k: v for k, v in ns.items() if isinstance(v, _Method)}
+    cls = EnumClass(name, bases, methods, kind="plain")
+    mix = "str" if flavour == "StrEnum" else "int" if flavour == "IntEnum" else None
+    members = []
+    aliases = {}
+    auto_n = [0]
+    for k, v in ns.items():
+        if isinstance(v, _Method) or k.startswith("_"):
+            continue
+        if v is AUTO:
+            auto_n[0] += 1
+            v = k.lower() if mix == "str" else auto_n[0]
+        first = next((m for m in members if m.value == v), None)
+        if first is not None:
+            aliases[k] = first  # a second name for the same value is an alias of the first member
+            continue
+        members.append(EnumMember(cls, k, v, mix))
+    d = object.__getattribute__(cls, "__dict__")
+    d["_uc_members"] = members
+    d["_uc_aliases"] = aliases
+    return cls
+
+
+class EnumBase:
+    """`enum.Enum` / `StrEnum` / `IntEnum` as a value: a base class name in `class` statements (recognised there by name) and the
+    functional API `Enum("Name", names)` with names a mapping, a sequence of names or pairs, or a string of names."""
+
+    def __init__(self, flavour):
+        self._flavour = flavour
+        self.__name__ = flavour
+
+    def __call__(self, name, names=None, **kw):
+        if names is None:
+            raise Unsupported(f"{self._flavour}(value) on the base class")
+        if isinstance(names, str):
+            names = names.replace(",", " ").split()
+        if isinstance(names, dict):
+            items = list(names.items())
+        else:
+            items = []
+            for i, x in enumerate(names):
+                items.append((x[0], x[1]) if isinstance(x, (tuple, list)) else (x, x.lower() if self._flavour == "StrEnum" else i + kw.get("start", 1)))
+        return build_enum(name, self._flavour, dict(items), ())
+
+
+AUTO = object()
